@@ -435,6 +435,7 @@ func c09(c *Ctx) {
 		}
 	}
 
+	headerCells(c)
 	staticHeaderScan(c)
 	socketRun(c)
 }
@@ -450,7 +451,9 @@ func staticHeaderScan(c *Ctx) {
 	}
 	assign := regexp.MustCompile(`\.(ID|SerialNumber|SubPackageSum|SubPackageNo|TerminalPhoneNo|bcdTerminalPhoneNo)\b[^=!<>:\n]*(=[^=]|\+\+|--)`)
 	// whole-struct writes through which a delivered header could be replaced or overwritten
-	whole := regexp.MustCompile(`(\*\s*(h|header|initHeader|hdr)\s*=[^=])|(\.Header\s*=[^=])|(\.JTMessage\s*=[^=])`)
+	whole := regexp.MustCompile(`(\*\s*(h|header|initHeader|hdr)\s*=[^=])|(\.Header\s*=[^=])|(\.JTMessage\s*=[^=])|(\.Property\s*=[^=])`)
+	// taking the address of a listed field is the first half of a write through a pointer
+	addrOf := regexp.MustCompile(`(^|[^&])&\s*[A-Za-z_][A-Za-z0-9_\.\(\)\*]*\.(ID|SerialNumber|SubPackageSum|SubPackageNo|TerminalPhoneNo|bcdTerminalPhoneNo)\b`)
 	var bad []string
 	nfiles, sawDecode, nCalls := 0, false, 0
 	for _, dir := range []string{"service", "protocol/jt808"} {
@@ -482,16 +485,29 @@ func staticHeaderScan(c *Ctx) {
 				if isWhole {
 					// building a NEW message from a fresh local copy (`x := *old` a few lines above, then `.Header = &x`)
 					// is not a write to a delivered message
+					// ... both the SOURCE (a fresh copy) and the TARGET (a local declared just above, i.e. an object
+					// nobody else holds yet) are looked at
 					if k := strings.Index(code, "= &"); k >= 0 {
 						name := strings.TrimSpace(code[k+3:])
+						target := strings.TrimSpace(code[:k])
+						if d := strings.Index(target, "."); d >= 0 {
+							target = target[:d]
+						}
+						srcFresh, tgtFresh := false, false
 						for j := i - 1; j >= 0 && j >= i-12; j-- {
 							if strings.Contains(lines[j], name+" := *") {
-								isWhole = false
+								srcFresh = true
 							}
+							if strings.Contains(lines[j], target+" := ") {
+								tgtFresh = true
+							}
+						}
+						if srcFresh && tgtFresh {
+							isWhole = false
 						}
 					}
 				}
-				if (assign.MatchString(code) || isWhole) && !inDecode {
+				if (assign.MatchString(code) || isWhole || addrOf.MatchString(code)) && !inDecode {
 					bad = append(bad, fmt.Sprintf("%s:%d: %s", strings.TrimPrefix(f, root+"/"), i+1, strings.TrimSpace(l)))
 				}
 				if dir == "service" && strings.Contains(code, ".Decode(") {
@@ -512,6 +528,7 @@ func staticHeaderScan(c *Ctx) {
 	// second pass, type-specific pattern, over every other package a delivered message can reach (message
 	// models and codecs get the *JTMessage in Parse / ReplyBody): <...>.Header.<listed field> = ...
 	viaHeader := regexp.MustCompile(`(Header|header)\.(ID|SerialNumber|SubPackageSum|SubPackageNo|TerminalPhoneNo)\b[^=!<>:\n]*(=[^=]|\+\+|--)`)
+	addrHeader := regexp.MustCompile(`(^|[^&])&\s*[A-Za-z_][A-Za-z0-9_\.\(\)\*]*(Header|header)\.(ID|SerialNumber|SubPackageSum|SubPackageNo|TerminalPhoneNo)\b`)
 	nOther := 0
 	for _, dir := range []string{"protocol", "shared", "attachment"} {
 		filepath.Walk(filepath.Join(root, dir), func(f string, info os.FileInfo, err error) error {
@@ -529,7 +546,7 @@ func staticHeaderScan(c *Ctx) {
 				if k := strings.Index(code, "//"); k >= 0 {
 					code = code[:k]
 				}
-				if viaHeader.MatchString(code) {
+				if viaHeader.MatchString(code) || addrHeader.MatchString(code) {
 					bad = append(bad, fmt.Sprintf("%s:%d: %s", strings.TrimPrefix(f, root+"/"), i+1, strings.TrimSpace(l)))
 				}
 			}
